@@ -689,7 +689,9 @@ def r5_setitem_routing(rep, src):
             return NotImplemented
         heap = H.Heap(src.mod(PM), hooks={'.set_field_to_simple_value': simple3, '.set_field_from_raw_string': raw3,
                                           '.get_kvpair_element': lambda it, args, kw: it.h.kv,
-                                          '.convert_to_text': read_comment, '.iter_tokens': read_comment, '.iter_parts': read_comment, '.dump': read_comment})
+                                          '.convert_to_text': read_comment, '.iter_tokens': read_comment, '.iter_parts': read_comment, '.dump': read_comment,
+                                          '.convert_content_to_text': lambda it, args, kw, old_line=old_line: old_line.rstrip('\n') if args and isinstance(args[0], H.Ref)
+                                          and args[0].name == '@old_line0' else NotImplemented})
         heap.symbolic_strings = True
         comment = heap.alloc('Deb822CommentElement', {}, name='@comment')
         heap.comment = comment
